@@ -275,7 +275,9 @@ impl<'m> VConv<'m> {
     /// `<id> <ty> <init>?`
     fn vardef(&mut self, d: &ir::VarDef, hist: &mut Hist) -> Result<Vec<Sx>, Sx> {
         let lv = self.m.variable_registry.get_local_variable(d.id);
-        if lv.storage_class != ir::LocalStorage::Local || lv.precise {
+        // `precise` restricts the optimiser, the values are those of the unmodified declaration: evaluated through;
+        // that the exporter keeps the modifier is judged on the trees (vrun.rs: precise_of_ir / precise_of_ast)
+        if lv.storage_class != ir::LocalStorage::Local {
             return Err(unsup("LocalStorage"));
         }
         let mut v = vec![a(&d.id.0.to_string()), self.ty(lv.type_id)];
@@ -381,7 +383,7 @@ impl<'m> VConv<'m> {
                 ir::InputModifier::Out => "out",
                 ir::InputModifier::InOut => "inout",
             };
-            let t = if p.semantic.is_some() || p.precise || p.interpolation_modifier.is_some() {
+            let t = if p.semantic.is_some() || p.interpolation_modifier.is_some() {
                 unsup("Param")
             } else {
                 self.ty(p.param_type.type_id)
@@ -407,7 +409,7 @@ impl<'m> VConv<'m> {
         let sd = &self.m.struct_registry[id.0 as usize];
         let mut v = vec![a(&id.0.to_string())];
         for mem in &sd.members {
-            if mem.semantic.is_some() || mem.precise || mem.interpolation_modifier.is_some() {
+            if mem.semantic.is_some() || mem.interpolation_modifier.is_some() {
                 v.push(unsup("StructMember"));
             } else {
                 v.push(self.ty(mem.type_id));
@@ -484,6 +486,32 @@ pub struct TConv {
     pub type_names: Vec<String>,
     /// function templates all of whose parameters are unnamed: `template<typename> int f_0(int x)`
     pub unnamed_templates: Vec<String>,
+    /// function templates with a type parameter that carries the name of a struct of the module — how the exporter emits an
+    /// instantiation with a struct argument (`template<typename S> S pick_0(S a, S b)`, called `pick_0<S>(s, t)`): inside the
+    /// function the parameter hides the struct of the same name, and every call must bind it to exactly that struct
+    pub struct_named_templates: Vec<(String, Vec<Option<String>>)>,
+}
+
+/// the names of the type parameters of a function template none of whose parameters has a default and whose value
+/// parameters are unnamed: `template<typename S, int> S pick_0(S a)` gives `[Some("S"), None]`
+fn template_param_names(f: &ast::FunctionDefinition) -> Option<Vec<Option<String>>> {
+    if f.template_params.0.is_empty() {
+        return None;
+    }
+    f.template_params
+        .0
+        .iter()
+        .map(|p| match p {
+            ast::TemplateParam::Type(t) if t.default.is_none() => Some(t.name.as_ref().map(|n| n.node.clone())),
+            ast::TemplateParam::Value(v) if v.name.is_none() && v.default.is_none() => Some(None),
+            _ => None,
+        })
+        .collect()
+}
+
+/// `precise` is accepted (and has no meaning for the evaluators) in front of a declared type
+fn without_precise(mods: Vec<ast::TypeModifier>) -> Vec<ast::TypeModifier> {
+    mods.into_iter().filter(|m| *m != ast::TypeModifier::Precise).collect()
 }
 
 fn unnamed_params(f: &ast::FunctionDefinition) -> bool {
@@ -510,7 +538,24 @@ impl TConv {
             }
         }
         walk(&m.root_definitions, "", &mut type_names, &mut unnamed_templates);
-        TConv { type_names, unnamed_templates }
+        let mut struct_named_templates = Vec::new();
+        fn walk2(defs: &[ast::RootDefinition], prefix: &str, type_names: &[String], found: &mut Vec<(String, Vec<Option<String>>)>) {
+            for rd in defs {
+                match rd {
+                    ast::RootDefinition::Function(f) if !unnamed_params(f) => {
+                        if let Some(names) = template_param_names(f) {
+                            if names.iter().flatten().all(|n| type_names.iter().any(|t| t == n) && !is_numeric_type_name(n)) {
+                                found.push((format!("{}{}", prefix, f.name.node), names));
+                            }
+                        }
+                    }
+                    ast::RootDefinition::Namespace(n, inner) => walk2(inner, &format!("{}{}::", prefix, n.node), type_names, found),
+                    _ => {}
+                }
+            }
+        }
+        walk2(&m.root_definitions, "", &type_names, &mut struct_named_templates);
+        TConv { type_names, unnamed_templates, struct_named_templates }
     }
 
     fn is_type_name(&self, s: &str) -> bool {
@@ -586,7 +631,29 @@ impl TConv {
             ast::Expression::Call(f, targs, args) => {
                 // explicit template arguments: only for calls of functions whose template parameters are unnamed (unused),
                 // which is how the exporter emits instantiations; `func` below refuses named parameters
-                if !targs.is_empty() && !matches!(&f.node, ast::Expression::Identifier(id) if ident(id).map(|n| self.unnamed_templates.contains(&n)).unwrap_or(false)) {
+                let callee = match &f.node {
+                    ast::Expression::Identifier(id) => ident(id),
+                    _ => None,
+                };
+                let binds_struct_names = || -> bool {
+                    // every named parameter receives the type of its own name
+                    let names = match callee.as_ref().and_then(|n| self.struct_named_templates.iter().find(|(f, _)| f == n)) {
+                        Some((_, names)) => names,
+                        None => return false,
+                    };
+                    names.len() == targs.len()
+                        && names.iter().zip(targs.iter()).all(|(n, t)| match (n, t) {
+                            (None, _) => true,
+                            (Some(n), ast::ExpressionOrType::Type(ty)) | (Some(n), ast::ExpressionOrType::Either(_, ty)) => {
+                                ty.abstract_declarator == ast::Declarator::Empty
+                                    && ty.base.modifiers.modifiers.is_empty()
+                                    && ty.base.layout.1.is_empty()
+                                    && ident(&ty.base.layout.0).as_deref() == Some(n.as_str())
+                            }
+                            _ => false,
+                        })
+                };
+                if !targs.is_empty() && !callee.as_ref().map(|n| self.unnamed_templates.contains(n)).unwrap_or(false) && !binds_struct_names() {
                     return unsup("TemplateArgs");
                 }
                 match &f.node {
@@ -654,7 +721,7 @@ impl TConv {
 
     fn vardef(&self, d: &ast::VarDef) -> Option<Vec<Sx>> {
         let (base, mods) = self.base_type(&d.local_type)?;
-        if mods.iter().any(|m| !matches!(m, ast::TypeModifier::Const)) {
+        if mods.iter().any(|m| !matches!(m, ast::TypeModifier::Const | ast::TypeModifier::Precise)) {
             return None;
         }
         self.defs(&base, &d.defs)
@@ -734,7 +801,7 @@ impl TConv {
                     ast::TypeModifier::In => dir = "in",
                     ast::TypeModifier::Out => dir = "out",
                     ast::TypeModifier::InOut => dir = "inout",
-                    ast::TypeModifier::Const => {}
+                    ast::TypeModifier::Const | ast::TypeModifier::Precise => {}
                     _ => bad = true,
                 }
             }
@@ -754,7 +821,8 @@ impl TConv {
             None => unsup("NoBody"),
         };
         let mut items = vec![a(&f.name.node), ret, node("params", ps), body];
-        if !f.attributes.is_empty() || (!f.template_params.0.is_empty() && !unnamed_params(f)) {
+        let struct_named = self.struct_named_templates.iter().any(|(n, names)| n.ends_with(&f.name.node) && Some(names) == template_param_names(f).as_ref());
+        if !f.attributes.is_empty() || (!f.template_params.0.is_empty() && !unnamed_params(f) && !struct_named) {
             items.push(unsup("FunctionAttribute"));
         }
         node("fn", items)
@@ -772,7 +840,7 @@ impl TConv {
     pub fn find_function<'m>(&self, defs: &'m [ast::RootDefinition], prefix: &str, qualified: &str) -> Option<&'m ast::FunctionDefinition> {
         for rd in defs {
             match rd {
-                ast::RootDefinition::Function(fd) if format!("{}{}", prefix, fd.name.node) == qualified => return Some(fd),
+                ast::RootDefinition::Function(fd) if format!("{}{}", prefix, fd.name.node) == qualified && fd.body.is_some() => return Some(fd),
                 ast::RootDefinition::Namespace(n, inner) => {
                     if let Some(f) = self.find_function(inner, &format!("{}{}::", prefix, n.node), qualified) {
                         return Some(f);
@@ -810,7 +878,7 @@ impl TConv {
                     for e in &s.members {
                         match e {
                             ast::StructEntry::Variable(mem) if mem.attributes.is_empty() => match self.base_type(&mem.ty) {
-                                Some((base, mods)) if mods.is_empty() => {
+                                Some((base, mods)) if without_precise(mods.clone()).is_empty() => {
                                     for def in &mem.defs {
                                         match self.declarator(&base, &def.declarator) {
                                             Some((Some(n), ty)) if def.init.is_none() && def.location_annotations.is_empty() => {
